@@ -1,32 +1,711 @@
 //! Group / history / schedule relations (C05, C06, C07, C13, C20) and replay.
-use crate::driver::{violation_json, CaseRunner, Partial};
-use crate::props::{self, GCtx};
-use crate::GrammarEntry;
-use std::collections::HashMap;
-use verif_core::plans::GrammarSpec;
+use crate::driver::{run_loop, violation_json, CaseRunner, ModelEntry, Partial};
+use crate::props::{self, oracle, oracle_summary, CaseOut, Failure, GCtx};
+use crate::{observe, GrammarEntry, Obs, RuleEntry, TEv, MODE_PLAIN, MODE_REC};
+use proptest::prelude::*;
+use proptest::test_runner::{Config, RngAlgorithm, TestCaseError, TestError, TestRng, TestRunner};
+use serde_json::json;
+use std::cell::RefCell;
+use std::collections::{BTreeMap, HashMap};
+use verif_core::inputs;
+use verif_core::interp;
+use verif_core::util::{fnv64, hash_parts, seed_bytes, Src};
 
-pub fn run(_table: &'static [GrammarEntry], _ctxs: &[(usize, GCtx)], _cr: &CaseRunner, _partial: &mut Partial) {
-    unimplemented!()
+fn fail(msg: impl Into<String>, expected: impl Into<String>, observed: impl Into<String>) -> Failure {
+    Failure { msg: msg.into(), expected: expected.into(), observed: observed.into() }
 }
 
-pub fn replay(table: &'static [GrammarEntry], by_id: &HashMap<String, (String, GrammarSpec)>, rec: &serde_json::Value, cr: &CaseRunner, partial: &mut Partial) {
+fn find_rule<'a>(table: &'static [GrammarEntry], ti: usize, rule: &str) -> Option<&'a RuleEntry> {
+    table[ti].rules.iter().find(|e| e.rule == rule)
+}
+
+fn is_fuel(o: &Obs) -> bool {
+    o.panic.as_deref().map_or(false, |p| p.starts_with("VERIF_FUEL") || p.starts_with("VERIF_DEPTH"))
+}
+
+fn groups<'a>(ctxs: &'a [(usize, GCtx)]) -> BTreeMap<String, Vec<&'a (usize, GCtx)>> {
+    let mut m: BTreeMap<String, Vec<&(usize, GCtx)>> = BTreeMap::new();
+    for c in ctxs {
+        let key = c.1.spec.group.clone().unwrap_or_else(|| c.1.id.clone());
+        m.entry(key).or_default().push(c);
+    }
+    m
+}
+
+pub fn run(table: &'static [GrammarEntry], ctxs: &[(usize, GCtx)], cr: &CaseRunner, partial: &mut Partial) {
+    match cr.prop {
+        "C05" => run_c05(table, ctxs, cr, partial),
+        "C06" => run_c06(table, ctxs, cr, partial),
+        "C07" => run_c07(table, ctxs, cr, partial),
+        "C13" => run_c13(table, ctxs, cr, partial),
+        "C20" => run_c20(table, ctxs, cr, partial),
+        _ => unreachable!(),
+    }
+}
+
+// ------------------------------------------------------------------------------------------------
+// C05: @memoize never changes results; histories
+// ------------------------------------------------------------------------------------------------
+fn group_violation(prop: &str, members: &[&(usize, GCtx)], rule: &str, input: &str, f: &Failure) -> serde_json::Value {
+    json!({
+        "property": prop,
+        "kind": "group",
+        "group": members.iter().map(|m| json!({"id": m.1.id, "role": m.1.spec.role, "grammar_text": m.1.text, "spec": m.1.spec})).collect::<Vec<_>>(),
+        "grammar_text": members[0].1.text,
+        "rule": rule,
+        "input": input,
+        "message": f.msg,
+        "expected": f.expected,
+        "observed": f.observed,
+    })
+}
+
+fn c05_case(table: &'static [GrammarEntry], members: &[&(usize, GCtx)], rule: &str, input: &str) -> Result<CaseOut, Failure> {
+    let base = &members[0].1;
+    let o = oracle(base, rule, input, 0);
+    let mut out = CaseOut::default();
+    if o.diverged {
+        out.skipped = Some("oracle_diverged");
+        return Ok(out);
+    }
+    let mut first: Option<(String, Obs)> = None;
+    for m in members {
+        let e = match find_rule(table, m.0, rule) {
+            Some(e) => e,
+            None => continue,
+        };
+        let obs = observe(e.parse, input, MODE_PLAIN, 0);
+        if let Some(p) = &obs.panic {
+            return Err(fail(format!("variant '{}' panicked on {:?}: {p}", m.1.spec.role, input), oracle_summary(&o), obs.summary()));
+        }
+        if let Some((role0, f)) = &first {
+            if f.ok != obs.ok || f.debug != obs.debug {
+                return Err(fail(
+                    format!("@memoize changes the result: variant '{}' vs '{}' for rule {} on {:?}", role0, m.1.spec.role, rule, input),
+                    f.summary(),
+                    obs.summary(),
+                ));
+            }
+        }
+        if obs.ok != o.ok || (obs.ok && obs.debug != o.value) {
+            return Err(fail(format!("variant '{}' differs from the PEG result for rule {} on {:?}", m.1.spec.role, rule, input), oracle_summary(&o), obs.summary()));
+        }
+        if first.is_none() {
+            first = Some((m.1.spec.role.clone(), obs));
+        }
+    }
+    // non-triviality: some memoized (rule, offset) of the all-memoized variant is evaluated >= 2 times
+    if let Some(all) = members.iter().find(|m| m.1.spec.role == "all") {
+        let oa = oracle(&all.1, rule, input, 0);
+        if oa.stats.memo_revisits > 0 {
+            out.nontrivial = true;
+            out.classes.push("memo_revisit");
+        }
+        if oa.stats.memo_revisit_first_failed > 0 {
+            out.classes.push("memo_revisit_after_failure");
+        }
+    }
+    out.classes.push(if o.ok { "accept" } else { "reject" });
+    Ok(out)
+}
+
+/// history strategy: a list of inputs (choice bytes) and an order with repetitions
+fn history_strategy(max_inputs: usize) -> impl Strategy<Value = (Vec<Vec<u8>>, Vec<u16>)> {
+    (proptest::collection::vec(proptest::collection::vec(any::<u8>(), 0..100), 3..max_inputs), proptest::collection::vec(any::<u16>(), 4..(max_inputs * 2)))
+}
+
+fn history_case(
+    g: &GCtx,
+    e: &RuleEntry,
+    input_bytes: &[Vec<u8>],
+    order: &[u16],
+    cfg: &inputs::InputCfg,
+    same_len_bias: bool,
+) -> Result<(CaseOut, Vec<String>), Failure> {
+    let mut ins: Vec<String> = input_bytes.iter().map(|b| inputs::build_input(&g.model, e.rule, b, cfg, &g.alphabet).0).collect();
+    if same_len_bias && ins.len() >= 2 {
+        // equal-length inputs with different content are the interesting ones (cache key = offset)
+        let n = ins.len();
+        for i in 1..n {
+            if i % 2 == 1 {
+                let prev: Vec<char> = ins[i - 1].chars().collect();
+                if !prev.is_empty() {
+                    let k = (order.get(i).copied().unwrap_or(0) as usize) % prev.len();
+                    let mut c = prev.clone();
+                    c[k] = g.alphabet[(order.get(i + 1).copied().unwrap_or(1) as usize) % g.alphabet.len()];
+                    ins[i] = c.into_iter().collect();
+                }
+            }
+        }
+    }
+    let reference: Vec<Obs> = ins.iter().map(|i| observe(e.parse, i, MODE_PLAIN, 0)).collect();
+    let mut out = CaseOut::default();
+    for (step, ix) in order.iter().enumerate() {
+        let k = ((*ix as usize) * ins.len()) >> 16;
+        let obs = observe(e.parse, &ins[k], MODE_PLAIN, 0);
+        if obs.result_key() != reference[k].result_key() {
+            return Err(fail(
+                format!("result depends on earlier parse calls: step {step} re-parsing input #{k} {:?} of rule {}", ins[k], e.rule),
+                reference[k].summary(),
+                obs.summary(),
+            ));
+        }
+    }
+    let mut lens = BTreeMap::new();
+    for i in &ins {
+        *lens.entry(i.len()).or_insert(0) += 1;
+    }
+    if lens.values().any(|c| *c >= 2) {
+        out.classes.push("equal_length_inputs");
+        out.nontrivial = true;
+    }
+    Ok((out, ins))
+}
+
+fn run_histories(cr: &CaseRunner, g: &GCtx, e: &RuleEntry, partial: &mut Partial, histories: u32) {
+    let cfg = crate::driver::input_cfg(cr.prop, cr.max_len);
+    let seed = seed_bytes(cr.seed ^ 0x4849, g.ghash, fnv64(e.rule.as_bytes()));
+    let mut runner = TestRunner::new_with_rng(
+        Config { cases: histories, failure_persistence: None, max_shrink_iters: 2000, ..Config::default() },
+        TestRng::from_seed(RngAlgorithm::ChaCha, &seed),
+    );
+    let failed = RefCell::new(false);
+    let acc = RefCell::new((0u64, Vec::<u64>::new(), 0u64));
+    let last: RefCell<Option<(Vec<String>, Vec<u16>, Failure)>> = RefCell::new(None);
+    let result = runner.run(&history_strategy(16), |(bytes, order)| match history_case(g, e, &bytes, &order, &cfg, true) {
+        Ok((out, ins)) => {
+            if !*failed.borrow() {
+                let mut a = acc.borrow_mut();
+                a.0 += order.len() as u64 + ins.len() as u64;
+                if out.nontrivial {
+                    let parts: Vec<&[u8]> = ins.iter().map(|s| s.as_bytes()).collect();
+                    a.1.push(hash_parts(&parts) ^ g.ghash);
+                    a.2 += 1;
+                }
+            }
+            Ok(())
+        }
+        Err(f) => {
+            *failed.borrow_mut() = true;
+            let ins: Vec<String> = bytes.iter().map(|b| inputs::build_input(&g.model, e.rule, b, &cfg, &g.alphabet).0).collect();
+            let msg = f.msg.clone();
+            *last.borrow_mut() = Some((ins, order.clone(), f));
+            Err(TestCaseError::fail(msg))
+        }
+    });
+    let a = acc.into_inner();
+    partial.evaluations += a.0;
+    partial.nontrivial.extend(a.1);
+    *partial.classes.entry("history_with_equal_length_inputs".into()).or_insert(0) += a.2;
+    if let Err(TestError::Fail(..)) = result {
+        if let Some((ins, order, f)) = last.into_inner() {
+            partial.violations.push(json!({
+                "property": cr.prop, "kind": "history", "grammar_id": g.id, "grammar_text": g.text, "spec": g.spec,
+                "rule": e.rule, "inputs": ins, "order": order, "message": f.msg, "expected": f.expected, "observed": f.observed,
+            }));
+        }
+    }
+}
+
+fn run_c05(table: &'static [GrammarEntry], ctxs: &[(usize, GCtx)], cr: &CaseRunner, partial: &mut Partial) {
+    for (_gk, members) in groups(ctxs) {
+        if members.len() < 2 {
+            continue;
+        }
+        let base = &members[0].1;
+        let rules: Vec<&str> = table[members[0].0].rules.iter().map(|e| e.rule).filter(|r| members.iter().all(|m| find_rule(table, m.0, r).is_some())).collect();
+        for rule in rules {
+            let mm = members.clone();
+            run_loop(cr, base, rule, cr.cases, partial, &mut |input| c05_case(table, &mm, rule, input), &mut |input, f| group_violation("C05", &mm, rule, input, f));
+        }
+        // histories on the all-memoized variant
+        if let Some(all) = members.iter().find(|m| m.1.spec.role == "all") {
+            for e in table[all.0].rules.iter().filter(|e| !e.rule.starts_with("W_")) {
+                run_histories(cr, &all.1, e, partial, (cr.cases / 20).max(5));
+            }
+        }
+    }
+}
+
+// ------------------------------------------------------------------------------------------------
+// C06: packrat bound
+// ------------------------------------------------------------------------------------------------
+fn c06_case(g: &GCtx, e: &RuleEntry, input: &str) -> Result<CaseOut, Failure> {
+    let mut out = CaseOut::default();
+    let o_plain = oracle(g, e.rule, input, 0);
+    if o_plain.diverged {
+        out.skipped = Some("oracle_diverged");
+        return Ok(out);
+    }
+    let o = interp::run(&g.model, &g.shapes, e.rule, input, interp::Cfg { memo_aware: true, ..Default::default() });
+    let rec = observe(e.parse, input, MODE_REC, 0);
+    if rec.panic.is_some() {
+        out.skipped = Some("panic_or_fuel");
+        return Ok(out);
+    }
+    // (a) user functions: never more calls than the packrat model makes
+    let mut want: BTreeMap<(&str, &str), i64> = BTreeMap::new();
+    for h in &o.hooks {
+        *want.entry((h.name.as_str(), h.arg.as_str())).or_insert(0) += 1;
+    }
+    let mut got: BTreeMap<(&str, &str), i64> = BTreeMap::new();
+    for h in &rec.hooks {
+        *got.entry((h.name.as_str(), h.arg.as_str())).or_insert(0) += 1;
+    }
+    for (k, n) in &got {
+        let w = want.get(k).copied().unwrap_or(0);
+        if *n > w {
+            let off = input.len() - k.1.len().min(input.len());
+            return Err(fail(
+                format!("user function {} reached through a memoized rule ran {} times at offset {} (packrat model: {}) for rule {} on {:?}", k.0, n, off, w, e.rule, input),
+                format!("<= {w} calls"),
+                format!("{n} calls"),
+            ));
+        }
+    }
+    // (b) rule entries: never more than the packrat model
+    let mut want_s: BTreeMap<(&str, usize), i64> = BTreeMap::new();
+    for ev in &o.trace {
+        if let interp::Ev::Start { rule, pos, .. } = ev {
+            *want_s.entry((rule.as_str(), *pos)).or_insert(0) += 1;
+        }
+    }
+    let mut got_s: BTreeMap<(&str, usize), i64> = BTreeMap::new();
+    for ev in &rec.trace {
+        if let TEv::Start { rule, pos, .. } = ev {
+            *got_s.entry((rule.as_str(), *pos)).or_insert(0) += 1;
+        }
+    }
+    for (k, n) in &got_s {
+        let w = want_s.get(k).copied().unwrap_or(0);
+        if *n > w {
+            return Err(fail(
+                format!("rule {} was entered {} times at offset {} although a memoized caller must answer from the cache (packrat model: {}) — parsing rule {} on {:?}", k.0, n, k.1, w, e.rule, input),
+                format!("<= {w} entries"),
+                format!("{n} entries"),
+            ));
+        }
+    }
+    // (c) global bound when every normal rule is memoized
+    if g.spec.role == "all_memoized" {
+        let nrules = g.model.normals().filter(|n| n.memoize()).count();
+        let probes: usize = rec.hooks.iter().filter(|h| h.name.starts_with("ext_probe")).count();
+        let bound = nrules * (input.len() + 1);
+        if probes > bound {
+            return Err(fail("more memoized body evaluations than rules x (len + 1)", format!("<= {bound}"), probes.to_string()));
+        }
+    }
+    if o_plain.stats.memo_revisits > 0 {
+        out.classes.push("memo_revisit");
+    }
+    if o_plain.stats.memo_revisit_first_failed > 0 {
+        out.classes.push("memo_revisit_after_failure");
+        out.nontrivial = true;
+    }
+    Ok(out)
+}
+
+fn run_c06(table: &'static [GrammarEntry], ctxs: &[(usize, GCtx)], cr: &CaseRunner, partial: &mut Partial) {
+    for (ti, g) in ctxs {
+        for e in table[*ti].rules {
+            run_loop(cr, g, e.rule, cr.cases, partial, &mut |input| c06_case(g, e, input), &mut |input, f| violation_json("C06", g, e.rule, input, f));
+        }
+    }
+}
+
+// ------------------------------------------------------------------------------------------------
+// C07: left recursion
+// ------------------------------------------------------------------------------------------------
+fn c07_case(g: &GCtx, e: &RuleEntry, input: &str) -> Result<CaseOut, Failure> {
+    let mut out = CaseOut::default();
+    let o = oracle(g, e.rule, input, 0);
+    if o.diverged {
+        out.skipped = Some("oracle_diverged");
+        return Ok(out);
+    }
+    let rec = observe(e.parse, input, MODE_REC, 0);
+    if is_fuel(&rec) {
+        return Err(fail(format!("@leftrec parse of rule {} on {:?} does not terminate (tracer fuel / depth exhausted)", e.rule, input), oracle_summary(&o), rec.summary()));
+    }
+    let plain = observe(e.parse, input, MODE_PLAIN, 0);
+    if let Some(p) = &plain.panic {
+        return Err(fail(format!("parser panicked: {p}"), oracle_summary(&o), plain.summary()));
+    }
+    if plain.ok != o.ok {
+        return Err(fail(format!("acceptance differs from seed-and-grow for rule {} on {:?}", e.rule, input), oracle_summary(&o), plain.summary()));
+    }
+    if plain.ok && plain.debug != o.value {
+        return Err(fail(format!("tree differs from the left-nested longest growth for rule {} on {:?}", e.rule, input), o.value.clone(), plain.debug.clone()));
+    }
+    if o.stats.growth_steps >= 2 {
+        out.classes.push("growth>=2");
+        out.nontrivial = true;
+    }
+    if !o.ok && o.stats.growth_entered > 0 {
+        out.classes.push("failing_after_entering_growth");
+        out.nontrivial = true;
+    }
+    out.classes.push(if o.ok { "accept" } else { "reject" });
+    Ok(out)
+}
+
+/// constructive oracle for `E = l:*E op r:Atom | ... | a:Atom` with `Atom = 'a'..'c'` (no interpreter involved)
+fn c07_constructive(g: &GCtx, e: &RuleEntry, bytes: &[u8]) -> Result<(CaseOut, String), Failure> {
+    let sh = g.spec.flags.constructive.as_ref().unwrap();
+    let mut src = Src::new(bytes);
+    let n = src.range(0, 7);
+    let mut input = String::new();
+    let first = src.choose(&sh.base).clone();
+    input.push_str(&first);
+    let mut tree = format!("E {{ l: None, r: None, a: Some({:?}) }}", first);
+    let mut consumed = input.len();
+    let mut steps = 0;
+    for _ in 0..n {
+        let op = src.choose(&sh.ops).clone();
+        let at = src.choose(&sh.base).clone();
+        input.push_str(&op);
+        input.push_str(&at);
+        tree = format!("E {{ l: Some({}), r: Some({:?}), a: None }}", tree, at);
+        consumed = input.len();
+        steps += 1;
+    }
+    // trailing junk that cannot extend the match
+    let junk = *src.choose(&["", "", "?", "a", "??", " "]);
+    let dangling = if src.chance(50) { sh.ops[0].clone() } else { String::new() };
+    input.push_str(&dangling);
+    input.push_str(junk);
+    // the dangling operator + junk must not form a valid extension
+    let ext_ok = !dangling.is_empty() && sh.base.iter().any(|b| junk.starts_with(b.as_str()));
+    if ext_ok {
+        // it would extend: account for it
+        tree = format!("E {{ l: Some({}), r: Some({:?}), a: None }}", tree, &junk[..1]);
+        consumed += dangling.len() + 1;
+        steps += 1;
+    }
+    let skipping = g.model.normal("E").map_or(false, |n| !n.no_skip_ws());
+    let _ = skipping;
+    let rec = observe(e.parse, &input, MODE_REC, 0);
+    if is_fuel(&rec) {
+        return Err(fail(format!("@leftrec parse on {:?} does not terminate", input), tree, rec.summary()));
+    }
+    let plain = observe(e.parse, &input, MODE_PLAIN, 0);
+    let want = if e.rule == "W_E" { format!("W_E {{ v: {}, position: 0..{} }}", tree, consumed) } else { tree.clone() };
+    if !plain.ok || plain.debug != want {
+        return Err(fail(format!("`b x*` not accepted greedily with the left-nested tree for {:?} (rule {})", input, e.rule), want, plain.summary()));
+    }
+    let mut out = CaseOut::default();
+    if steps >= 2 {
+        out.nontrivial = true;
+        out.classes.push("constructive_growth>=2");
+    }
+    Ok((out, input))
+}
+
+fn run_c07(table: &'static [GrammarEntry], ctxs: &[(usize, GCtx)], cr: &CaseRunner, partial: &mut Partial) {
+    for (ti, g) in ctxs {
+        for e in table[*ti].rules {
+            run_loop(cr, g, e.rule, cr.cases, partial, &mut |input| c07_case(g, e, input), &mut |input, f| violation_json("C07", g, e.rule, input, f));
+            if g.spec.flags.constructive.is_some() && (e.rule == "E" || e.rule == "W_E") {
+                // constructive oracle
+                let seed = seed_bytes(cr.seed ^ 0xC07, g.ghash, fnv64(e.rule.as_bytes()));
+                let mut runner = TestRunner::new_with_rng(
+                    Config { cases: cr.cases, failure_persistence: None, max_shrink_iters: 2000, ..Config::default() },
+                    TestRng::from_seed(RngAlgorithm::ChaCha, &seed),
+                );
+                let failed = RefCell::new(false);
+                let acc = RefCell::new((0u64, Vec::<u64>::new(), 0u64));
+                let last: RefCell<Option<Failure>> = RefCell::new(None);
+                let r = runner.run(&proptest::collection::vec(any::<u8>(), 0..40), |bytes| match c07_constructive(g, e, &bytes) {
+                    Ok((out, input)) => {
+                        if !*failed.borrow() {
+                            let mut a = acc.borrow_mut();
+                            a.0 += 1;
+                            if out.nontrivial {
+                                a.1.push(hash_parts(&[&g.ghash.to_le_bytes(), e.rule.as_bytes(), input.as_bytes(), b"constructive"]));
+                                a.2 += 1;
+                            }
+                        }
+                        Ok(())
+                    }
+                    Err(f) => {
+                        *failed.borrow_mut() = true;
+                        let m = f.msg.clone();
+                        *last.borrow_mut() = Some(f);
+                        Err(TestCaseError::fail(m))
+                    }
+                });
+                let a = acc.into_inner();
+                partial.evaluations += a.0;
+                partial.nontrivial.extend(a.1);
+                *partial.classes.entry("constructive_growth>=2".into()).or_insert(0) += a.2;
+                if let Err(TestError::Fail(_, bytes)) = r {
+                    let f = match c07_constructive(g, e, &bytes) {
+                        Err(f) => f,
+                        Ok(_) => last.into_inner().unwrap(),
+                    };
+                    let input = f.msg.split('"').nth(1).unwrap_or("").to_string();
+                    partial.violations.push(violation_json("C07", g, e.rule, &input, &f));
+                }
+            }
+        }
+    }
+}
+
+// ------------------------------------------------------------------------------------------------
+// C13: include == inlined body
+// ------------------------------------------------------------------------------------------------
+fn c13_case(table: &'static [GrammarEntry], a: &(usize, GCtx), b: &(usize, GCtx), rule: &str, input: &str) -> Result<CaseOut, Failure> {
+    let mut out = CaseOut::default();
+    let (ea, eb) = (find_rule(table, a.0, rule).unwrap(), find_rule(table, b.0, rule).unwrap());
+    let oa = observe(ea.parse, input, MODE_PLAIN, 0);
+    let ob = observe(eb.parse, input, MODE_PLAIN, 0);
+    if oa.panic.is_some() != ob.panic.is_some() || oa.ok != ob.ok || oa.debug != ob.debug {
+        return Err(fail(format!("`>Rule` and the parenthesised body disagree for rule {} on {:?}", rule, input), ob.summary(), oa.summary()));
+    }
+    if !oa.ok && oa.panic.is_none() && oa.err_pos != ob.err_pos {
+        return Err(fail(format!("error position differs between `>Rule` and the inlined body for rule {} on {:?}", rule, input), format!("{}", ob.err_pos), format!("{}", oa.err_pos)));
+    }
+    let o = oracle(&a.1, rule, input, 0);
+    if !o.diverged && oa.panic.is_none() {
+        if o.ok != oa.ok || (o.ok && o.value != oa.debug) {
+            return Err(fail(format!("grammar with includes differs from PEG semantics (includer's settings) for rule {} on {:?}", rule, input), oracle_summary(&o), oa.summary()));
+        }
+        if o.stats.includes_entered > 0 {
+            out.classes.push("include_entered");
+        }
+        if o.stats.includes_nested > 0 {
+            out.classes.push("include_in_nested_construct");
+            out.nontrivial = true;
+        }
+    }
+    Ok(out)
+}
+
+fn run_c13(table: &'static [GrammarEntry], ctxs: &[(usize, GCtx)], cr: &CaseRunner, partial: &mut Partial) {
+    for (_k, members) in groups(ctxs) {
+        if members.len() != 2 {
+            continue;
+        }
+        let (a, b) = if members[0].1.spec.role == "include" { (members[0], members[1]) } else { (members[1], members[0]) };
+        if a.1.types_hash != b.1.types_hash {
+            partial.violations.push(json!({
+                "property": "C13", "kind": "types", "grammar_text": a.1.text, "inlined_text": b.1.text, "spec": a.1.spec,
+                "message": "public type declarations differ between the grammar with `>Rule` and the grammar with the body written in place",
+                "expected": b.1.types_text, "observed": a.1.types_text,
+            }));
+            continue;
+        }
+        partial.evaluations += 1;
+        let rules: Vec<&str> = table[a.0].rules.iter().map(|e| e.rule).filter(|r| find_rule(table, b.0, r).is_some()).collect();
+        for rule in rules {
+            run_loop(cr, &a.1, rule, cr.cases, partial, &mut |input| c13_case(table, a, b, rule, input), &mut |input, f| group_violation("C13", &[a, b], rule, input, f));
+        }
+    }
+}
+
+// ------------------------------------------------------------------------------------------------
+// C20: purity across histories and threads
+// ------------------------------------------------------------------------------------------------
+fn run_c20(table: &'static [GrammarEntry], ctxs: &[(usize, GCtx)], cr: &CaseRunner, partial: &mut Partial) {
+    let cfg = crate::driver::input_cfg(cr.prop, cr.max_len);
+    // sequential histories
+    for (ti, g) in ctxs {
+        for e in table[*ti].rules.iter().filter(|e| !e.rule.starts_with("W_")) {
+            run_histories(cr, g, e, partial, (cr.cases / 10).max(5));
+        }
+    }
+    // schedules: work items (grammar, rule, input) assigned to threads by a generated assignment
+    let mut items_pool: Vec<(usize, usize, &GCtx)> = vec![];
+    for (ti, g) in ctxs {
+        for (ri, e) in table[*ti].rules.iter().enumerate() {
+            if !e.rule.starts_with("W_") {
+                items_pool.push((*ti, ri, g));
+            }
+        }
+    }
+    if items_pool.is_empty() {
+        return;
+    }
+    let rounds = (cr.cases / 10).max(20);
+    let seed = seed_bytes(cr.seed ^ 0xC20, fnv64(b"sched"), ctxs.len() as u64 ^ ctxs[0].1.ghash);
+    let mut runner = TestRunner::new_with_rng(
+        Config { cases: rounds, failure_persistence: None, max_shrink_iters: 200, ..Config::default() },
+        TestRng::from_seed(RngAlgorithm::ChaCha, &seed),
+    );
+    // a round: 2..4 (grammar,rule) pairs, 8..40 inputs each, thread count, assignment bytes
+    let strat = (
+        proptest::collection::vec((any::<u16>(), proptest::collection::vec(proptest::collection::vec(any::<u8>(), 0..80), 8..40)), 2..5),
+        2usize..17,
+        proptest::collection::vec(any::<u8>(), 200),
+    );
+    let failed = RefCell::new(false);
+    let acc = RefCell::new((0u64, Vec::<u64>::new(), 0u64));
+    let last: RefCell<Option<serde_json::Value>> = RefCell::new(None);
+    let result = runner.run(&strat, |(pairs, nthreads, assign)| {
+        let mut work: Vec<(fn(&str, u8, u64) -> crate::Raw, String, String, String)> = vec![];
+        let mut same_len_pairs = 0;
+        for (pick, inputs_b) in &pairs {
+            let (ti, ri, g) = items_pool[((*pick as usize) * items_pool.len()) >> 16];
+            let e = &table[ti].rules[ri];
+            let mut ins: Vec<String> = inputs_b.iter().map(|b| inputs::build_input(&g.model, e.rule, b, &cfg, &g.alphabet).0).collect();
+            // make neighbours equal-length variants
+            for i in (1..ins.len()).step_by(3) {
+                let prev: Vec<char> = ins[i - 1].chars().collect();
+                if !prev.is_empty() {
+                    let k = assign[i % assign.len()] as usize % prev.len();
+                    let mut c = prev.clone();
+                    c[k] = g.alphabet[assign[(i + 7) % assign.len()] as usize % g.alphabet.len()];
+                    ins[i] = c.into_iter().collect();
+                    same_len_pairs += 1;
+                }
+            }
+            for i in ins {
+                work.push((e.parse, g.id.clone(), e.rule.to_string(), i));
+            }
+        }
+        let reference: Vec<(bool, String, usize, String, bool)> = work
+            .iter()
+            .map(|w| {
+                let o = observe(w.0, &w.3, MODE_PLAIN, 0);
+                (o.ok, o.debug, o.err_pos, o.err_spec, o.panic.is_some())
+            })
+            .collect();
+        // assignment
+        let mut per: Vec<Vec<usize>> = vec![vec![]; nthreads];
+        for i in 0..work.len() {
+            per[assign[i % assign.len()] as usize % nthreads].push(i);
+        }
+        let barrier = std::sync::Barrier::new(nthreads);
+        let results: Vec<Vec<(usize, (bool, String, usize, String, bool))>> = std::thread::scope(|s| {
+            let hs: Vec<_> = per
+                .iter()
+                .map(|idxs| {
+                    let work = &work;
+                    let barrier = &barrier;
+                    s.spawn(move || {
+                        barrier.wait();
+                        let mut out = vec![];
+                        // each thread walks its items twice (repetition)
+                        for _rep in 0..2 {
+                            for &i in idxs {
+                                let o = observe(work[i].0, &work[i].3, MODE_PLAIN, 0);
+                                out.push((i, (o.ok, o.debug, o.err_pos, o.err_spec, o.panic.is_some())));
+                            }
+                        }
+                        out
+                    })
+                })
+                .collect();
+            hs.into_iter().map(|h| h.join().unwrap()).collect()
+        });
+        for (t, rs) in results.iter().enumerate() {
+            for (i, r) in rs {
+                if *r != reference[*i] {
+                    *failed.borrow_mut() = true;
+                    *last.borrow_mut() = Some(json!({
+                        "property": "C20", "kind": "schedule", "grammar_id": work[*i].1, "rule": work[*i].2, "input": work[*i].3,
+                        "threads": nthreads, "thread": t,
+                        "message": format!("concurrent parse result differs from the sequential reference for rule {} on {:?}", work[*i].2, work[*i].3),
+                        "expected": format!("{:?}", reference[*i]), "observed": format!("{:?}", r),
+                    }));
+                    return Err(TestCaseError::fail("schedule"));
+                }
+            }
+        }
+        if !*failed.borrow() {
+            let mut a = acc.borrow_mut();
+            a.0 += (work.len() * 3) as u64;
+            if same_len_pairs > 0 && nthreads >= 2 {
+                let parts: Vec<&[u8]> = work.iter().map(|w| w.3.as_bytes()).collect();
+                a.1.push(hash_parts(&parts) ^ nthreads as u64);
+                a.2 += 1;
+            }
+        }
+        Ok(())
+    });
+    let a = acc.into_inner();
+    partial.evaluations += a.0;
+    partial.nontrivial.extend(a.1);
+    *partial.classes.entry("concurrent_round_with_equal_length_inputs".into()).or_insert(0) += a.2;
+    if result.is_err() {
+        if let Some(v) = last.into_inner() {
+            partial.violations.push(v);
+        }
+    }
+}
+
+// ------------------------------------------------------------------------------------------------
+// replay
+// ------------------------------------------------------------------------------------------------
+pub fn replay(table: &'static [GrammarEntry], by_id: &HashMap<String, ModelEntry>, rec: &serde_json::Value, cr: &CaseRunner, partial: &mut Partial) {
     let rule = rec["rule"].as_str().unwrap_or("");
     let input = rec["input"].as_str().unwrap_or("");
-    for ge in table {
-        let (text, spec) = match by_id.get(ge.id) {
+    let mut ctxs: Vec<(usize, GCtx)> = vec![];
+    for (ti, ge) in table.iter().enumerate() {
+        let me = match by_id.get(ge.id) {
             Some(x) => x,
             None => continue,
         };
-        let g = match GCtx::new(ge.id, text, spec) {
-            Ok(g) => g,
-            Err(_) => continue,
-        };
-        partial.grammars += 1;
-        for e in ge.rules {
-            if e.rule == rule {
+        if let Ok(mut g) = GCtx::new(ge.id, &me.text, &me.spec) {
+            g.types_hash = me.types_hash.clone();
+            g.types_text = me.types_text.clone();
+            ctxs.push((ti, g));
+        }
+    }
+    partial.grammars = ctxs.len() as u64;
+    let kind = rec["kind"].as_str().unwrap_or("case");
+    match (cr.prop, kind) {
+        ("C05", "group") => {
+            let members: Vec<&(usize, GCtx)> = ctxs.iter().collect();
+            partial.evaluations += 1;
+            if let Err(f) = c05_case(table, &members, rule, input) {
+                partial.violations.push(group_violation("C05", &members, rule, input, &f));
+            }
+        }
+        ("C13", "group") | ("C13", "types") => {
+            if ctxs.len() == 2 {
+                let (a, b) = if ctxs[0].1.spec.role == "include" { (&ctxs[0], &ctxs[1]) } else { (&ctxs[1], &ctxs[0]) };
                 partial.evaluations += 1;
-                if let Err(f) = props::check_case(cr.prop, &g, e, input) {
-                    partial.violations.push(violation_json(cr.prop, &g, rule, input, &f));
+                if a.1.types_hash != b.1.types_hash {
+                    partial.violations.push(json!({"property": "C13", "kind": "types", "message": "public type declarations differ", "grammar_text": a.1.text}));
+                } else if kind == "group" {
+                    if let Err(f) = c13_case(table, a, b, rule, input) {
+                        partial.violations.push(group_violation("C13", &[a, b], rule, input, &f));
+                    }
+                }
+            }
+        }
+        (_, "history") => {
+            let ins: Vec<String> = rec["inputs"].as_array().map(|a| a.iter().map(|x| x.as_str().unwrap_or("").to_string()).collect()).unwrap_or_default();
+            let order: Vec<u16> = rec["order"].as_array().map(|a| a.iter().map(|x| x.as_u64().unwrap_or(0) as u16).collect()).unwrap_or_default();
+            for (ti, g) in &ctxs {
+                if let Some(e) = find_rule(table, *ti, rule) {
+                    partial.evaluations += 1;
+                    let reference: Vec<Obs> = ins.iter().map(|i| observe(e.parse, i, MODE_PLAIN, 0)).collect();
+                    for ix in &order {
+                        let k = ((*ix as usize) * ins.len()) >> 16;
+                        let obs = observe(e.parse, &ins[k], MODE_PLAIN, 0);
+                        if obs.result_key() != reference[k].result_key() {
+                            partial.violations.push(json!({"property": cr.prop, "kind": "history", "grammar_text": g.text, "rule": rule, "message": "result depends on earlier parse calls"}));
+                            break;
+                        }
+                    }
+                }
+            }
+        }
+        _ => {
+            for (ti, g) in &ctxs {
+                if let Some(e) = find_rule(table, *ti, rule) {
+                    partial.evaluations += 1;
+                    let r = match cr.prop {
+                        "C06" => c06_case(g, e, input),
+                        "C07" => c07_case(g, e, input),
+                        "C05" | "C13" | "C20" => Ok(CaseOut::default()),
+                        p => props::check_case(p, g, e, input),
+                    };
+                    if let Err(f) = r {
+                        partial.violations.push(violation_json(cr.prop, g, rule, input, &f));
+                    }
                 }
             }
         }
